@@ -211,6 +211,8 @@ class ExprMixin:
                     out.append((s, VInt(-ops.to_int(v).t)))
             elif isinstance(n.op, ast.UAdd):
                 out.append((s, v))
+            elif isinstance(n.op, ast.Invert) and isinstance(ops.deref(s, v), (VInt, VBool)):
+                out.append((s, VInt(-ops.to_int(ops.deref(s, v)).t - 1)))      # ~x == -x - 1 (A2b)
             else:
                 raise Unsupported("unary ~")
         return out
